@@ -18,26 +18,29 @@ Obs == ndJsonDeserialize(IOEnv.OBS)
 GrammarById(id) == LET r == CHOOSE x \in SeqRange(GSeq) : x.id = id IN
    [nts |-> SeqRange(r.nts), ts |-> SeqRange(r.ts), start |-> r.start, rules |-> r.rules]
 
-\* table-driven run: the same loop as Driver.tla, as a function of the whole input
-RECURSIVE RunTab(_, _, _, _, _)
-RunTab(G, tab, stk, w, i) ==
+\* table-driven run: the same loop as Driver.tla, as a function of the whole input; nds is the node stack (Cfg trees)
+RECURSIVE RunTab(_, _, _, _, _, _)
+RunTab(G, tab, stk, nds, w, i) ==
   LET a == IF i <= Len(w) THEN w[i] ELSE EOFSYM
       c == tab.act[<<stk[Len(stk)], a>>]
-      stop == IF i <= Len(w) THEN [t |-> "err", at |-> i] ELSE [t |-> "eof", at |-> i]
+      stop == IF i <= Len(w) THEN [t |-> "err", at |-> i, tree |-> Leaf("", 0)] ELSE [t |-> "eof", at |-> i, tree |-> Leaf("", 0)]
   IN IF c[1] = "e" THEN stop
-     ELSE IF c[1] = "a" THEN [t |-> "acc", at |-> 0]
-     ELSE IF c[1] = "s" THEN RunTab(G, tab, Append(stk, c[2]), w, i + 1)
+     ELSE IF c[1] = "a" THEN [t |-> "acc", at |-> 0, tree |-> nds[Len(nds)]]
+     ELSE IF c[1] = "s" THEN RunTab(G, tab, Append(stk, c[2]), Append(nds, Leaf(a, i)), w, i + 1)
      ELSE LET r == c[2]
-              st2 == SubSeq(stk, 1, Len(stk) - Len(G.rules[r].rhs))
+              k == Len(G.rules[r].rhs)
+              st2 == SubSeq(stk, 1, Len(stk) - k)
+              nd2 == SubSeq(nds, 1, Len(nds) - k)
+              kids == SubSeq(nds, Len(nds) - k + 1, Len(nds))
               to == tab.go[<<st2[Len(st2)], G.rules[r].lhs>>]
-          IN IF to = -1 THEN stop ELSE RunTab(G, tab, Append(st2, to), w, i)
+          IN IF to = -1 THEN stop ELSE RunTab(G, tab, Append(st2, to), Append(nd2, Node(r, kids)), w, i)
 
 VARIABLES l, jg, jtab, jgid
 jvars == <<l, jg, jtab, jgid>>
 Init == l = 1 /\ jg = <<>> /\ jtab = <<>> /\ jgid = -1
 
 JudgeRec(G, tab, r) ==
-  LET exp == IF tab.cf THEN RunTab(G, tab, <<tab.start>>, r.w, 1) ELSE [t |-> "none", at |-> 0]
+  LET exp == IF tab.cf THEN RunTab(G, tab, <<tab.start>>, <<>>, r.w, 1) ELSE [t |-> "none", at |-> 0, tree |-> Leaf("", 0)]
       expPulled == IF exp.t = "err" THEN exp.at ELSE Len(r.w) + 1
       why == IF ~tab.cf THEN "C04: generate accepted a grammar that is not LALR(1)"
              ELSE IF r.t = "panic" THEN "C01: the emitted parser panicked"
@@ -45,7 +48,8 @@ JudgeRec(G, tab, r) ==
              ELSE IF r.t # exp.t \/ r.at # exp.at THEN "C03: wrong error report (kind or offending token)"
              ELSE IF r.pulled # expPulled THEN "C03: pulled a different number of items than the reported token requires"
              ELSE ""
-  IN [id |-> r.id, ok |-> (why = ""), why |-> why, expect |-> [t |-> exp.t, at |-> exp.at, pulled |-> expPulled]]
+  IN [id |-> r.id, ok |-> (why = ""), why |-> why, expect |-> [t |-> exp.t, at |-> exp.at, pulled |-> expPulled],
+      tree |-> exp.tree]   \* the derivation tree of an accepted input: compared with the value the real parser returned (C02)
 
 Next ==
   /\ l <= Len(Obs)
